@@ -19,7 +19,7 @@ REGISTRY = {
     "C02": {
         "engine": "engine_deser",
         "theorems": [(A + "ErrorsThm", "Api.C02_errors_eq_partial"), (A + "ErrorsThm", "Api.errors_eq_violations"),
-                     (A + "ObjErrorsThm", "Api.C02_object_level")],
+                     (A + "ObjErrorsThm", "Api.C02_object_level"), (A + "TablesThm", "Api.Tables.C02_error_templates")],
         "partial": "list equation errors = violations on primitives / lists / tuples / NewTypes / annotations; per-object law (children = violating keys, "
                    "both directions) for ObjectMethod; order of name-keyed children, mappings and Optional not yet proved",
         "assumptions": MODEL_ASSUMPTIONS,
@@ -33,7 +33,8 @@ REGISTRY = {
     },
     "C08": {
         "engine": "engine_deser",
-        "theorems": [(A + "NoCopyThm", "Api.C08_no_copy"), (A + "NoCopyThm", "Api.noCopy_independent")],
+        "theorems": [(A + "NoCopyThm", "Api.C08_no_copy"), (A + "NoCopyThm", "Api.noCopy_independent"),
+                     (A + "TablesThm", "Api.Tables.C08_check_only_table")],
         "partial": "independence of no_copy proved on Ty.scope (TypedDict and failing key types outside); constructor override, precomputed method, "
                    "check_type and pass-through are decided by the correspondence / relational checks on the real code",
         "assumptions": MODEL_ASSUMPTIONS,
@@ -51,7 +52,7 @@ REGISTRY = {
     "C14": {
         "engine": "engine_deser",
         "theorems": [(A + "CoerceThm", "Api.C14_monotone_partial"), (A + "CoerceThm", "Api.coerce_prim"), (A + "CoerceThm", "Api.coerce_instance"),
-                     (A + "CoerceThm", "Api.C14_union_witness_repaired")],
+                     (A + "CoerceThm", "Api.C14_union_witness_repaired"), (A + "TablesThm", "Api.Tables.C14_word_table")],
         "partial": "monotonicity proved for everything but sets, general unions and field fall-back; numeral parsing (int(str), float(str)) enters as an oracle table",
         "assumptions": MODEL_ASSUMPTIONS + ["CPython's int(str) / float(str) / str(float) are oracle tables (CoerceEnv), modelled not verified"],
     },
@@ -87,6 +88,36 @@ REGISTRY["C10"] = {
     "assumptions": ["validator bodies are parameters (pass / fail with a given error); dependency and discard sets are data"],
 }
 
+REGISTRY["C06"] = {
+    "engine": "engine_schema",
+    "theorems": [(A + "EndToEnd", "Api.C06_deserialize_iff_schema"), (A + "SchemaThm", "Api.C06_schema_iff_conforms"),
+                 (A + "SchemaThm", "Api.schema_iff_conforms"), (A + "SchemaThm", "Api.C06_literal_constraint_counterexample"),
+                 (A + "SchemaThm", "Api.C06_int_float_counterexample")],
+    "partial": "deserialize <=> validates(buildD) on Ty.acc /\\ Ty.sch and sane data; outside: sets, non-string literals, key types other than str, "
+               "float with huge ints, constraints on literals (each with a counterexample theorem or a known finding), $ref-bearing schemas",
+    "trusted_extra": ["Lean formalisation of the 2020-12 keywords apischema emits, cross-checked against jsonschema on every generated (schema, datum) pair"],
+    "assumptions": MODEL_ASSUMPTIONS,
+}
+REGISTRY["C07"] = {
+    "engine": "engine_schema",
+    "theorems": [(A + "SerSchema", "Api.C07_serialized_validates"), (A + "SerSchema", "Api.C04_keys"),
+                 (A + "SerSchema", "Api.C07_options_mismatch_counterexample")],
+    "partial": "proved for primitives, lists, tuples, NewTypes and dataclasses nested to any depth under every exclude_none / exclude_defaults / "
+               "additional_properties record; serialized methods, mappings, unions, enums, TypedDicts and Any are decided by the engine only",
+    "trusted_extra": ["Lean formalisation of the 2020-12 keywords, cross-checked against jsonschema"],
+    "assumptions": MODEL_ASSUMPTIONS,
+}
+REGISTRY["C18"] = {
+    "engine": "engine_schema",
+    "theorems": [(A + "VersionsThm", "Api.C18_to07_preserves"), (A + "VersionsThm", "Api.C18_buildD"),
+                 (A + "VersionsThm", "Api.C18_vocabulary"), (A + "VersionsThm", "Api.C18_vocabulary_counterexample"),
+                 (A + "TablesThm", "Api.Tables.C18_vocabulary_generated"), (A + "TablesThm", "Api.Tables.C18_version_table")],
+    "partial": "instance preservation proved for the 2019-09 / draft-07 rewrite of the array keywords at every depth; `definitions` / `dependencies` "
+               "renaming and the OpenAPI 3.0 rewrite are decided by the engine (vocabulary scan + jsonschema per draft)",
+    "trusted_extra": ["Lean formalisation of draft-07 / 2019-09 array keywords, cross-checked against jsonschema's Draft7Validator / Draft201909Validator"],
+    "assumptions": MODEL_ASSUMPTIONS,
+}
+
 LEVEL_NOTE = ("Trusted: Lean 4.33 kernel; axioms propext / Classical.choice / Quot.sound only (audited by #print axioms on every run, no sorry / "
               "native_decide / own axioms); the hand-written model, tied to /repo by the differential correspondence of this check (same cases to the "
               "real code and to the compiled Lean driver); tools/extract.py for the regenerated tables; CPython / typing / dataclasses. "
@@ -111,6 +142,13 @@ TEXT["C10"] = ("Kernel-checked theorems on the model of validate(): the validato
                "specification, for every list / outcome assignment / discard structure (structural recursion: termination by construction), an error is "
                "raised iff an executed validator failed, and the gate of the object method; tied by real Validator objects with logging bodies and "
                "by generated dataclasses with @validator methods run through deserialize.")
+TEXT["C06"] = ("Kernel-checked equivalence validates(buildD T) d <=> conforms T d by induction along the specification, composed with C01 into "
+               "deserialize accepts <=> the generated schema validates, for every type tree of the scope; the schema builder model is compared with the real "
+               "schema, the Lean validator with jsonschema, and the property itself is evaluated on the real code with jsonschema as oracle.")
+TEXT["C07"] = ("Kernel-checked theorem: whatever serialize emits for a well-typed value validates against the schema built under the same global "
+               "settings (all 2^3 option records), on the dataclass fragment; the engine validates real serialized values against the real schema.")
+TEXT["C18"] = ("Kernel-checked theorem: the draft-07 / 2019-09 rewrite, applied at every level, accepts exactly the instances of the 2020-12 schema, for "
+               "every schema over the emitted keywords and every datum; vocabulary and instances are also checked on the real output per dialect.")
 for k, v in TEXT.items():
     REGISTRY[k]["level_text"] = v
     REGISTRY[k]["level_note"] = LEVEL_NOTE
@@ -118,4 +156,4 @@ for k, v in TEXT.items():
 # properties registered in MANIFEST.json (a property is claimed once its check is green on the unchanged tree)
 CLAIMED = ["C01", "C02", "C03", "C08", "C13", "C10", "C14", "C15", "C16"]
 NOT_CLAIMED = {p: "check under construction in this session (model and theorems exist, engine being registered); not yet claimed"
-               for p in ["C04", "C05", "C06", "C07", "C09", "C11", "C12", "C17", "C18", "C19", "C20"]}
+               for p in ["C04", "C05", "C09", "C11", "C12", "C17", "C19", "C20"]}
